@@ -621,6 +621,10 @@ class GTVFScheme(Scheme):
         stage2.append(Group(equations=eq3, real=False))
 
         g2_s = []
+        if self.solids and self.nu > 0.0:
+            # SolidWallNoSlipBC uses the number density V of the fluid too.
+            for fluid in self.fluids:
+                g2_s.append(VolumeSummation(dest=fluid, sources=all))
         for solid in self.solids:
             g2_s.append(VolumeSummation(dest=solid, sources=all))
             g2_s.append(SolidWallPressureBC(
@@ -666,6 +670,7 @@ class GTVFScheme(Scheme):
         dummy = get_particle_array_gtvf(name='junk')
         props = list(dummy.properties.keys())
         props += [dict(name=p, stride=v) for p, v in dummy.stride.items()]
+        props.append('V')
         output_props = dummy.output_property_arrays
         for fluid in self.fluids:
             pa = particle_arrays[fluid]
